@@ -240,7 +240,7 @@ func suiteStructs(r *Rng, n int, thorough bool, o *Out) {
 			// the type of a struct is what its tags declare every time it is built, whatever
 			// the caller did to an earlier result (edit it: one more attribute, one field less)
 			o.stat("build.again-after-edit")
-			first := typ.Copy()
+			first := copyTypeIndep(typ) // (kept by the harness's own copy)
 			if typ.Attrs != nil {
 				typ.Attrs["added-by-the-caller"] = jsonapi.Attr{Name: "added-by-the-caller", Type: jsonapi.AttrTypeInt}
 			}
@@ -385,7 +385,7 @@ func suiteStructs(r *Rng, n int, thorough bool, o *Out) {
 		// marshal is run for the verdict only (modelled in the marshal suites)
 		if fail == "" {
 			p, msg := guard(func() {
-				_ = jsonapi.MarshalResource(w, "/", wt.Fields(), map[string][]string{wt.Name: sortedKeys(wt.Rels)})
+				_ = jsonapi.MarshalResource(w, "/", fieldsIndep(wt), map[string][]string{wt.Name: sortedKeys(wt.Rels)})
 			})
 			if p {
 				fail = "MarshalResource: " + msg
